@@ -63,6 +63,16 @@ var c15Layouts = []c15Layout{
 	{"after-line-comment-quote", func(u, p string) string { return "-- it's \"new\n SET PASSWORD FOR " + qid(u) + " = " + p }, ""},
 	{"after-regex-dquote", func(u, p string) string { return "SELECT v FROM m WHERE h !~ /a\"b/ ; SET PASSWORD FOR " + qid(u) + " = " + p + "; SELECT 1 FROM \"m'\"" }, ""},
 	{"after-string-with-dquote", func(u, p string) string { return "SELECT v FROM m WHERE h = 'say \"' ; CREATE USER " + qid(u) + " WITH PASSWORD " + p }, ""},
+	// spellings the grammar does not have today: they count only if the parser accepts them - and a parser that learns
+	// one makes Sanitize responsible for it
+	{"create-equals", func(u, p string) string { return "CREATE USER " + qid(u) + " WITH PASSWORD = " + p }, ""},
+	{"create-equals-tight", func(u, p string) string { return "CREATE USER " + qid(u) + " WITH PASSWORD=" + p + " WITH ALL PRIVILEGES" }, ""},
+	{"create-parens", func(u, p string) string { return "CREATE USER " + qid(u) + " WITH PASSWORD (" + p + ")" }, ""},
+	{"create-identified", func(u, p string) string { return "CREATE USER " + qid(u) + " IDENTIFIED BY " + p }, ""},
+	{"set-no-equals", func(u, p string) string { return "SET PASSWORD FOR " + qid(u) + " " + p }, ""},
+	{"set-to", func(u, p string) string { return "SET PASSWORD FOR " + qid(u) + " TO " + p }, ""},
+	{"set-double-equals", func(u, p string) string { return "SET PASSWORD FOR " + qid(u) + " == " + p }, ""},
+	{"alter-user", func(u, p string) string { return "ALTER USER " + qid(u) + " WITH PASSWORD " + p }, ""},
 	{"create-comment", func(u, p string) string { return "CREATE USER " + qid(u) + " WITH /* c */ PASSWORD " + p }, "C15-comment-in-clause"},
 	{"create-line-comment", func(u, p string) string { return "CREATE USER " + qid(u) + " WITH -- c\n PASSWORD " + p }, "C15-comment-in-clause"},
 	{"set-comment", func(u, p string) string { return "SET PASSWORD /* c */ FOR " + qid(u) + " = " + p }, "C15-comment-in-clause"},
